@@ -176,6 +176,15 @@ OWNER_POLICY = {
         "atomic": {},
         "member_calls": {"ready": "gain_on_true", "sync": "gain", "wait": "gain", "force_sync": "gain", "force_wait": "gain"},
     },
+    # helper awaiter of cocls::discard(): it publishes ITSELF in its constructor (subscribe(this)) and deletes itself when
+    # resumed by the resolver; after the publishing call nothing of the object may be touched by the constructing thread
+    "discard::Awt": {
+        "fields": "*",                      # every data member of the class + the awaiter node fields
+        "include_ctor": True,
+        "entry": {"Awt": "before-publish (constructing thread)", "fin": "after-acquire (resumed by the resolver)"},
+        "atomic": {},
+        "publish_calls": ["subscribe", "await_suspend"],          # with `this` as argument: drop on true (accepted)
+    },
     "reusable_storage_mtsafe": {
         "fields": ["_ptr", "_capacity"],
         "entry": {},
@@ -322,6 +331,7 @@ class Walker:
         self.fences = {}       # (class, fn) -> list of (order, in_branch)
         self.seen_fn = set()
         self.funcs = {}        # (class chain, fn) -> list of function decl nodes with body
+        self.records = {}      # names of function-local classes -> record nodes
         for o in objs:
             self.index(o, [])
         for o in objs:
@@ -355,6 +365,22 @@ class Walker:
                 for x in n.get("inner", []):
                     if x.get("kind") not in ("ParmVarDecl", "FullComment"):
                         self.walk_stmt(x, c, fn, False)
+            # classes defined locally in the function body (e.g. the helper awaiter of cocls::discard): "<function>::<class>"
+            if body and ("local", n["id"]) not in self.seen_fn:
+                self.seen_fn.add(("local", n["id"]))
+                fnm = strip_tpl(n.get("name", ""))
+                stack = list(body)
+                while stack:
+                    x = stack.pop()
+                    if not isinstance(x, dict): continue
+                    if x.get("kind") == "CXXRecordDecl" and x.get("name") and x.get("inner"):
+                        lname = (c + "::" if c else "") + fnm + "::" + x["name"]
+                        self.ctxname[x["id"]] = lname
+                        self.records.setdefault(lname, []).append(x)
+                        self.walk_decl(x, lname)
+                        continue
+                    if x.get("kind") == "LambdaExpr": continue
+                    stack.extend(x.get("inner", []))
             return
         for ch in n.get("inner", []):
             if isinstance(ch, dict):
@@ -459,6 +485,8 @@ class MethodBuilder:
         self.fn = None
         self.cond_eff = None      # while evaluating a branch condition: conditional effects found in it
         self.cond_pol = (True, False)
+        self.taint = {}           # local pointer / reference variables that point INTO guarded state: name -> (field, is_ref)
+        self.ret_guarded = {}     # methods of the class that return a pointer / reference into guarded state: name -> field
 
     def emit(self, ev):
         n = self.g.new(ev)
@@ -533,6 +561,11 @@ class MethodBuilder:
                         if eff == "gain": self.emit(("Gain",))
                         elif self.cond_eff is not None: self.cond_eff.append((eff,) + self.cond_pol)
                         return
+                    if op in self.policy.get("publish_calls", []) and any(unwrap(a).get("kind") == "CXXThisExpr" for a in args):
+                        self.expr(raw)
+                        if self.cond_eff is not None: self.cond_eff.append(("drop_on_true",) + self.cond_pol)
+                        else: self.emit(("Release",))
+                        return
                     if op in self.policy.get("drop_calls", {}).get(self.fn, []) and base.get("kind") != "CXXThisExpr":
                         for a in args: self.expr(a)
                         self.emit(("Release",))
@@ -558,6 +591,10 @@ class MethodBuilder:
                         self.expr(a)
                     return
                 if "condition_variable" in bty:
+                    if op and op.startswith("notify") and getattr(self, "notify_guarded", False):
+                        # the destructor of this class waits on the condition variable: a waiter woken by the flag may destroy the
+                        # object, so the notification itself must happen before the lock is released
+                        self.emit(("Rd", "notify(%s)" % bname))
                     return
                 # call of another method of the same class on this
                 if base.get("kind") == "CXXThisExpr" or (ck == "MemberExpr" and not callee.get("inner")):
@@ -601,6 +638,25 @@ class MethodBuilder:
             self.expr(inner[0])
             self.cond_pol = (t, f)
             return
+        if self.policy is None and self.mutex and k == "BinaryOperator" and n.get("opcode") == "=" and len(inner) == 2:
+            lhs = unwrap(inner[0])
+            if lhs.get("kind") == "DeclRefExpr" and obj_name(lhs) in getattr(self, "ptr_locals", set()) | set(self.taint):
+                self.expr(inner[1])
+                src = self.guarded_source(inner[1])
+                if src: self.taint[obj_name(lhs)] = (src, False)
+                else: self.taint.pop(obj_name(lhs), None)
+                return
+        if self.policy is None and self.taint:
+            tgt = None
+            if k == "UnaryOperator" and n.get("opcode") == "*" and inner: tgt = unwrap(inner[0])
+            elif k == "MemberExpr" and n.get("isArrow") and inner: tgt = unwrap(inner[0])
+            elif k == "ArraySubscriptExpr" and inner: tgt = unwrap(inner[0])
+            if tgt is not None and tgt.get("kind") == "DeclRefExpr" and obj_name(tgt) in self.taint:
+                self.emit(("Wr" if write else "Rd", self.taint[obj_name(tgt)][0]))
+                return
+            if k == "DeclRefExpr" and obj_name(n) in self.taint and self.taint[obj_name(n)][1]:
+                self.emit(("Wr" if write else "Rd", self.taint[obj_name(n)][0]))
+                return
         if k in ("BinaryOperator", "CompoundAssignOperator") and len(inner) == 2:
             if n.get("opcode") in WRITE_OPS:
                 self.expr(inner[1]); self.expr(inner[0], write=True)
@@ -624,6 +680,37 @@ class MethodBuilder:
                 return
         for c in inner:
             self.expr(c, write)
+
+    @staticmethod
+    def is_ptr_or_ref(ty):
+        t = ty.replace("const", "").strip()
+        return t.endswith("*") or t.endswith("&")
+
+    def guarded_source(self, x):
+        """field of the guarded state that the value of expression x points / refers into, if any"""
+        if not isinstance(x, dict):
+            return None
+        k = x.get("kind")
+        if k in ("MemberExpr", "CXXDependentScopeMemberExpr") and self.is_this_field(x):
+            return x.get("name") or x.get("member")
+        if k == "DeclRefExpr" and obj_name(x) in self.taint:
+            return self.taint[obj_name(x)][0]
+        if k in ("CXXMemberCallExpr", "CallExpr") and x.get("inner"):
+            c = unwrap(x["inner"][0])
+            nm = c.get("name") or c.get("member")
+            b = unwrap((c.get("inner") or [{}])[0]) if c.get("inner") else {}
+            if nm in self.ret_guarded and b.get("kind") in ("CXXThisExpr", None):
+                return self.ret_guarded[nm]
+            if c.get("kind") in ("MemberExpr", "CXXDependentScopeMemberExpr"):
+                # member call on a field (operator[] / front() / at() ...): refers into that field
+                return self.guarded_source(b)
+            return None
+        if k == "LambdaExpr":
+            return None
+        for c in x.get("inner", []):
+            r = self.guarded_source(c)
+            if r: return r
+        return None
 
     def eval_cond(self, cond):
         """walks a branch condition; returns (conditional effects, unused).  Every conditional effect found in the condition
@@ -720,6 +807,13 @@ class MethodBuilder:
                         continue
                     for c in init:
                         self.expr(c)
+                    if self.policy is None and self.mutex and d.get("name") and self.is_ptr_or_ref(ty):
+                        src = None
+                        for c in init:
+                            src = src or self.guarded_source(c)
+                        if src: self.taint[d["name"]] = (src, ty.replace("const", "").strip().endswith("&"))
+                        else: self.taint.pop(d["name"], None)
+                        if not init: self.ptr_locals = getattr(self, "ptr_locals", set()) | {d["name"]}
             return
         if k == "IfStmt":
             # children: [init/cond-var]? cond then else?
@@ -881,6 +975,35 @@ def annotate(g, entry, pre, posts=None):
     return [a or "Any" for a in ann], prob
 
 
+CV_WAITS = ("wait", "wait_for", "wait_until")
+
+
+def dtor_waits_on_cv(w, cls):
+    """does the destructor of cls (through calls of methods of the same class) block in a condition-variable wait?
+    Then a thread released by that wait may destroy the object, and every notify must be done under the lock."""
+    short = cls.split("::")[-1]
+    seen, todo = set(), ["~" + short]
+    while todo:
+        fn = todo.pop()
+        if fn in seen: continue
+        seen.add(fn)
+        for fnode in w.funcs.get((cls, fn), []):
+            stack = [fnode]
+            while stack:
+                n = stack.pop()
+                if not isinstance(n, dict): continue
+                if n.get("kind") in ("CXXMemberCallExpr", "CallExpr") and n.get("inner"):
+                    c = unwrap(n["inner"][0])
+                    nm = c.get("name") or c.get("member")
+                    b = unwrap((c.get("inner") or [{}])[0]) if c.get("inner") else {}
+                    if nm in CV_WAITS and "condition_variable" in b.get("type", {}).get("qualType", ""):
+                        return True
+                    if nm and (cls, nm) in w.funcs and b.get("kind") in ("CXXThisExpr", None):
+                        todo.append(nm)
+                stack.extend(n.get("inner", []))
+    return False
+
+
 def extract_classes(w):
     """returns dict class -> {fields, methods: {name: {nodes, annot, pre, post, public}}}, problems"""
     out, problems, guard_problems = {}, [], []
@@ -922,6 +1045,29 @@ def extract_classes(w):
                 if f != mutex and "condition_variable" not in t and "std::mutex" not in t and "atomic" not in t
                 and not t.startswith("const ") and f not in conf.get("exclude", [])}
         mnames = set(fn for (c, fn) in w.funcs if c == cls)
+        notify_guarded = dtor_waits_on_cv(w, cls)
+        # methods that hand out a pointer / reference into the guarded state
+        ret_guarded = {}
+        for (c, fn), nodes in w.funcs.items():
+            if c != cls: continue
+            for fnode in nodes:
+                rty = fnode.get("type", {}).get("qualType", "").split("(")[0]
+                if not MethodBuilder.is_ptr_or_ref(rty): continue
+                probe = MethodBuilder(cls, mutex, set(data), mnames, [])
+                stack = [fnode]
+                while stack:
+                    n = stack.pop()
+                    if not isinstance(n, dict): continue
+                    if n.get("kind") == "ReturnStmt":
+                        src = None
+                        for ch in n.get("inner", []):
+                            src = src or probe.guarded_source(ch)
+                        if src: ret_guarded[fn] = src
+                    stack.extend(n.get("inner", []))
+        if notify_guarded:
+            for f, t in fields.items():
+                if "condition_variable" in t:
+                    data["notify(%s)" % f] = "pseudo field: notification on %s" % f
         methods = {}
         for (c, fn), nodes in sorted(w.funcs.items()):
             if c != cls:
@@ -934,6 +1080,8 @@ def extract_classes(w):
                 lockparams = [p["name"] for p in fnode.get("inner", []) if p.get("kind") == "ParmVarDecl"
                               and ("unique_lock" in p.get("type", {}).get("qualType", "")) and p.get("name")]
                 mb = MethodBuilder(cls, mutex, set(data), mnames, lockparams)
+                mb.notify_guarded = notify_guarded
+                mb.ret_guarded = ret_guarded
                 for x in fnode.get("inner", []):
                     if x.get("kind") == "CompoundStmt":
                         mb.stmt(x)
@@ -986,7 +1134,12 @@ def extract_owner_classes(w):
     for cls, pol in OWNER_POLICY.items():
         names = sorted(set(fn for (c, fn) in w.funcs if c == cls))
         short = cls.split("::")[-1]
-        names = [fn for fn in names if fn != short and not fn.startswith("~") and fn not in ("operator=",)]
+        names = [fn for fn in names if (fn != short or pol.get("include_ctor")) and not fn.startswith("~") and fn not in ("operator=",)]
+        if pol.get("fields") == "*":
+            fl = ["_next", "_handle_addr", "_resume_fn"]
+            for r in w.records.get(cls, []):
+                fl += [c["name"] for c in r.get("inner", []) if c.get("kind") == "FieldDecl" and c.get("name") and c["name"] not in fl]
+            pol = dict(pol, fields=fl)
         if not names:
             problems.append("owner discipline: class %s not found" % cls); continue
         methods = {}
